@@ -481,11 +481,16 @@ class BehavioralRTLIRTypeCheckVisitorL1( bir.BehavioralRTLIRNodeVisitor ):
         nbits = node.upper.right
         slice_size = nbits._value
         assert node.lower == node.upper.left
+        if not ( 0 < slice_size <= dtype.get_length() ):
+          raise PyMTLTypeError( s.blk, node.ast,
+            f'the size of the slice ({slice_size}) is out of width of signal ({dtype.get_length()})!' )
         node.Type = rt.NetWire( rdt.Vector( slice_size ) )
         node._is_explicit = True
         # Add new fields that might help translation
         node.size = slice_size
         node.base = node.lower
+      except PyMTLTypeError:
+        raise
       except Exception:
         raise PyMTLTypeError( s.blk, node.ast, 'slice bounds must be constant!' )
 
